@@ -154,11 +154,11 @@ def custom_definition(spec):
                 gate_name="ce_" + spec["t"], matrix=EXACT_TEMPLATES[spec["t"]], params_ordering=())
         return _DEF_CACHE[key]
     if spec["g"] == "custom":
-        key = ("custom", spec["k"], spec["mseed"])
+        key = ("custom", spec["k"], spec["mseed"], spec.get("name"))
         if key not in _DEF_CACHE:
             m = random_unitary(spec["k"], spec["mseed"])
             _DEF_CACHE[key] = CustomGateDefinition(
-                gate_name="cg%d_%d" % (spec["k"], spec["mseed"]),
+                gate_name=spec.get("name") or "cg%d_%d" % (spec["k"], spec["mseed"]),
                 matrix=sympy.Matrix(m.tolist()),
                 params_ordering=(),
             )
